@@ -1076,3 +1076,192 @@ pub fn check_render_case(case: &RenderCase, cx: &mut Cx) -> Res {
     }
     Ok(())
 }
+
+// ---------------------------------------------------------------------------------------------
+// Engine E6: the same cases decoded from fuzzer bytes (libFuzzer target `template_eq_render`)
+
+/// Byte decoder for the three case types. Every choice consumes whole bytes from the FRONT of the input
+/// (`int_in_range` over a range of at most 256 values = one byte, taken modulo the range; 32-bit indices = one byte
+/// spread over the 32 bits, which is all `vcore::pick` needs), so inputs can be written by hand: see
+/// `/verif/fuzzing/mkcorpus.py`. Exhausted input reads as zeros, i.e. every length becomes 0 and decoding ends.
+/// The domain is the one of the proptest generators in `main.rs`, except that template text, hole labels and
+/// property keys may also contain arbitrary `char`s (they are only ever copied or compared).
+pub mod fuzz {
+    use super::*;
+    use arbitrary::{Result, Unstructured};
+
+    fn idx(u: &mut Unstructured) -> Result<u32> {
+        Ok(u.arbitrary::<u8>()? as u32 * 0x0101_0101)
+    }
+
+    fn chars(u: &mut Unstructured, max: usize, free: bool) -> Result<String> {
+        let n = u.int_in_range(0..=max)?;
+        let mut s = String::new();
+        for _ in 0..n {
+            let i = u.int_in_range(0..=if free { TEXT_CHARS.len() + 1 } else { TEXT_CHARS.len() - 1 })?;
+            s.push(if i < TEXT_CHARS.len() { TEXT_CHARS[i] } else { u.arbitrary::<char>()? });
+        }
+        Ok(s)
+    }
+
+    pub fn text(u: &mut Unstructured) -> Result<String> {
+        chars(u, 4, true)
+    }
+
+    pub fn label(u: &mut Unstructured) -> Result<String> {
+        let i = u.int_in_range(0..=LABELS.len())?;
+        if i < LABELS.len() {
+            Ok(LABELS[i].to_string())
+        } else {
+            chars(u, 3, true)
+        }
+    }
+
+    fn flavor_of(u: &mut Unstructured) -> Result<Flavor> {
+        Ok(flavor(u.int_in_range(0..=3)?))
+    }
+
+    fn fmt_id(u: &mut Unstructured) -> Result<Option<u8>> {
+        let i: u8 = u.int_in_range(0..=4 * N_FMT - 1)?;
+        Ok((i < N_FMT).then_some(i))
+    }
+
+    pub fn part(u: &mut Unstructured) -> Result<P> {
+        Ok(if u.int_in_range(0..=1)? == 0u8 { P::T(text(u)?, flavor_of(u)?) } else { P::H(label(u)?, fmt_id(u)?, flavor_of(u)?) })
+    }
+
+    pub fn parts(u: &mut Unstructured, min: usize, max: usize) -> Result<Vec<P>> {
+        let n = u.int_in_range(min..=max)?;
+        (0..n).map(|_| part(u)).collect()
+    }
+
+    fn resplit_of(u: &mut Unstructured) -> Result<Resplit> {
+        let n = u.int_in_range(0..=3)?;
+        let mut runs = Vec::new();
+        for _ in 0..n {
+            let m = u.int_in_range(0..=3)?;
+            let cuts = (0..m).map(|_| idx(u)).collect::<Result<Vec<u32>>>()?;
+            runs.push((cuts, u.arbitrary::<bool>()?));
+        }
+        let k = u.int_in_range(0..=3)?;
+        let flavors = (0..k).map(|_| u.int_in_range(0..=3)).collect::<Result<Vec<u8>>>()?;
+        Ok(Resplit { runs, flavors })
+    }
+
+    fn edit(u: &mut Unstructured) -> Result<Edit> {
+        let ch = |u: &mut Unstructured| u.int_in_range(0..=TEXT_CHARS.len() as u8 - 1);
+        let lb = |u: &mut Unstructured| u.int_in_range(0..=LABELS.len() as u8 - 1);
+        Ok(match u.int_in_range(0..=8)? {
+            0u8 => Edit::ReplaceChar(idx(u)?, idx(u)?, ch(u)?),
+            1 => Edit::InsertChar(idx(u)?, idx(u)?, ch(u)?),
+            2 => Edit::DeleteChar(idx(u)?, idx(u)?),
+            3 => Edit::RenameHole(idx(u)?, lb(u)?),
+            4 => Edit::DropHole(idx(u)?),
+            5 => Edit::InsertHole(idx(u)?, idx(u)?, lb(u)?),
+            6 => Edit::HoleToText(idx(u)?),
+            7 => Edit::SwapHoles(idx(u)?),
+            _ => Edit::SetFmt(idx(u)?, fmt_id(u)?),
+        })
+    }
+
+    fn derive_of(u: &mut Unstructured) -> Result<Derive> {
+        Ok(match u.int_in_range(0..=9)? {
+            0u8..=4 => Derive::Resplit(resplit_of(u)?),
+            5..=8 => {
+                let n = u.int_in_range(1..=2)?;
+                let edits = (0..n).map(|_| edit(u)).collect::<Result<Vec<Edit>>>()?;
+                Derive::Mutant(edits, resplit_of(u)?)
+            }
+            _ => Derive::Independent(parts(u, 0, 6)?),
+        })
+    }
+
+    fn shape(u: &mut Unstructured) -> Result<Shape> {
+        let form = [Form::New, Form::NewRef, Form::FromSlice, Form::NewOwned, Form::Literal, Form::LiteralRef][u.int_in_range(0..=5)?];
+        let n = u.int_in_range(0..=2)?;
+        let conv = (0..n).map(|_| Ok([Conv::ByRef, Conv::ToOwned, Conv::Clone][u.int_in_range(0..=2)?])).collect::<Result<Vec<Conv>>>()?;
+        Ok(Shape { form, conv })
+    }
+
+    fn val(u: &mut Unstructured) -> Result<Val> {
+        const FIXED: [&str; 5] = ["Rust", "{x}", "a\"b\\", "  ", "längere Zeichenkette"];
+        const FLOATS: [f64; 6] = [0.0, -0.0, 1.5, 1e21, 1e-7, 100.0];
+        Ok(match u.int_in_range(0..=11)? {
+            0u8..=2 => Val::S(chars(u, 4, false)?),
+            3 => Val::S(FIXED[u.int_in_range(0..=FIXED.len() - 1)?].to_string()),
+            4 => Val::I(u.int_in_range(-20i64..=19)?),
+            5 => Val::I(u.arbitrary()?),
+            6 => Val::U(if u.arbitrary::<bool>()? { u64::MAX } else { u.arbitrary()? }),
+            7 => Val::Big(u.arbitrary()?, u.arbitrary()?),
+            8 => Val::F(FLOATS[u.int_in_range(0..=FLOATS.len() - 1)?]),
+            9 => Val::F(u.int_in_range(-1_000_000i32..=999_999)? as f64 / 128.0),
+            10 => Val::B(u.arbitrary()?),
+            _ => Val::I(u.int_in_range(-20i64..=19)?),
+        })
+    }
+
+    pub fn props(u: &mut Unstructured, max: usize) -> Result<Vec<(String, Val)>> {
+        let n = u.int_in_range(0..=max)?;
+        let mut out = Vec::new();
+        for _ in 0..n {
+            let key = if u.int_in_range(0..=9)? == 9u8 { "zz".to_string() } else { label(u)? };
+            out.push((key, val(u)?));
+        }
+        Ok(out)
+    }
+
+    fn opts(u: &mut Unstructured) -> Result<RenderOpts> {
+        Ok(RenderOpts { budget: u.int_in_range(0..=39)?, rec_by_value: u.arbitrary()?, props_kind: u.int_in_range(0..=2)? })
+    }
+
+    pub fn triple(u: &mut Unstructured) -> Result<Triple> {
+        Ok(Triple {
+            base: parts(u, 0, 6)?,
+            b: derive_of(u)?,
+            c: derive_of(u)?,
+            shapes: [shape(u)?, shape(u)?, shape(u)?],
+            props: props(u, 5)?,
+            opts: opts(u)?,
+        })
+    }
+
+    pub fn small_pair(u: &mut Unstructured) -> Result<SmallPair> {
+        let seq = |u: &mut Unstructured| -> Result<Vec<u8>> {
+            let n = u.int_in_range(0..=4)?;
+            (0..n).map(|_| u.int_in_range(0..=SMALL_ALPHABET as u8 - 1)).collect()
+        };
+        Ok(SmallPair { a: seq(u)?, b: seq(u)? })
+    }
+
+    pub fn render_case(u: &mut Unstructured) -> Result<RenderCase> {
+        Ok(RenderCase { parts: parts(u, 1, 9)?, shape: shape(u)?, props: props(u, 12)?, opts: opts(u)? })
+    }
+
+    /// What one input denotes (first byte modulo 8: 0-4 a triple, 5 a small pair, 6-7 a rendering case).
+    #[derive(Debug)]
+    pub enum Decoded {
+        Triple(Triple),
+        Small(SmallPair),
+        Render(RenderCase),
+    }
+
+    pub fn decode(data: &[u8]) -> Result<Decoded> {
+        let mut u = Unstructured::new(data);
+        Ok(match u.int_in_range(0..=7)? {
+            0u8..=4 => Decoded::Triple(triple(&mut u)?),
+            5 => Decoded::Small(small_pair(&mut u)?),
+            _ => Decoded::Render(render_case(&mut u)?),
+        })
+    }
+}
+
+/// libFuzzer entry (engine E6): decode the bytes into one of the case types and run the SAME oracles as the proptest
+/// generators. Listed known findings are stepped over by signature (`vcore::with_cx`).
+pub fn fuzz_entry(data: &[u8]) -> Res {
+    let Ok(case) = fuzz::decode(data) else { return Ok(()) };
+    vcore::with_cx("C16", |cx| match &case {
+        fuzz::Decoded::Triple(c) => check_triple(c, cx),
+        fuzz::Decoded::Small(c) => check_small_pair(c, cx),
+        fuzz::Decoded::Render(c) => check_render_case(c, cx),
+    })
+}
